@@ -48,6 +48,7 @@ fn main() {
         "autosql" => { run = misc::run_autosql; gen = misc::gen_autosql; }
         "stdin_autosql" => { run = misc::run_stdin_autosql; gen = misc::gen_stdin_autosql; }
         "indexer" => { run = misc::run_indexer; gen = misc::gen_indexer; }
+        "compat" => { run = misc::run_compat; gen = misc::gen_compat; }
         "nonleaf_at_eof" => { run = misc::run_nonleaf_at_eof; gen = misc::gen_nonleaf_at_eof; }
         _ => { eprintln!("unknown driver {}", driver); std::process::exit(2); }
     }
